@@ -64,6 +64,14 @@ class TensorMcmcSaemAlgorithm(
                 "The parameter `burn_in_step_power` should be in ]0.5, 1] in order to "
                 "have theoretical guarantees on convergence of MCMC-SAEM algorithm."
             )
+        if self.algo_parameters["n_burn_in_iter"] < 0:
+            # no iteration would be memory-less: the first maximization step would try to
+            # average with statistics that do not exist yet (AttributeError on `None.items()`)
+            raise LeaspyAlgoInputError(
+                "The number of memory-less iterations cannot be negative: got "
+                f"`n_burn_in_iter` = {self.algo_parameters['n_burn_in_iter']} (given explicitly, "
+                "or derived from `n_burn_in_iter_frac` * `n_iter`)."
+            )
 
     def _run(self, model: McmcSaemCompatibleModel, dataset: Dataset, **kwargs) -> State:
         """Main method to run the algorithm.
